@@ -14,7 +14,7 @@ contracts CAN say - and what is proved here on the real source - is the state of
        BaseScenario._execute_backup_callback        = OptimizationProblem.to_hdf(backup path, append=True): afterwards the file lists the database
        BackupInvariantLemmas                        "file == database at the last notification" is inductive over store + notification (proved postconditions only)
        BaseScenario.set_optimization_history_backup@file   the first export starts from an empty file or one listing the database   (KNOWN FINDING)
-       BaseScenario.execute                         after a run that recorded new points the file lists the database, nothing pending    (KNOWN FINDING)
+       BaseScenario.execute                         after a run that recorded new points the file lists the database, nothing pending    (defect repaired: 6142829)
   C03  Database.store@c12               the listeners are notified AFTER the point is recorded and registered for export (preconditions of the two
                                         notify functions, proved at their only call sites), the stored point is pending
        EvaluationProblem.add_listener, BaseScenario.set_optimization_history_backup (registration, erase / load branches, restored counter, the load
@@ -793,7 +793,6 @@ schema(SCNX, {"formulation": TObj(FORM, schema_key=FORM + "#c12"), "_BaseScenari
               "clear_history_before_execute": TBool, "name": TStr})
 RUN_MODIFIES = ("self.formulation.optimization_problem.database", "self.formulation.optimization_problem.database._Database__hdf_database",
                 "self.formulation.optimization_problem.evaluation_counter", "ghost:calllog", "ghost:calllog_n") + TO_FILE_GHOSTS
-FINAL_REGION = "database-empty-before-the-run"
 
 
 class _AtExit:
@@ -872,8 +871,9 @@ class DatabaseGetXVect(Contract):
 class ScenarioExecuteFinalExport(_Delegates):
     """BaseScenario.execute with a history backup: "the last call to the functions may not trigger the callback ... this ensures that the callback is called
     after the last iteration" (source comment) - when the run recorded new points, the backup file lists the database at the end (exported view of to_file: every
-    point with as many names as it has outputs) and nothing is left pending.  KNOWN FINDING (region database-empty-before-the-run): the guard `0 < n_x < n_x_a`
-    skips the final export when the database was EMPTY before the run - the normal case."""
+    point with as many names as it has outputs) and nothing is left pending - whatever the size of the database before the run.
+    (REPAIRED defect, /repo 6142829: the guard was `0 < n_x < n_x_a`, which skipped the final export for a run starting from an EMPTY database - the normal
+    case; with `n_x < n_x_a` the clauses are proved without any region.  The revert is a registered mutant.)"""
 
     targets = (SCN + ".execute",)
     self_schema = SCNX
@@ -885,14 +885,11 @@ class ScenarioExecuteFinalExport(_Delegates):
         # the multi-run mode of MDOScenarioAdapter (clear_history_before_execute) is not a backup configuration
         return _writer_pre(c, _scn_db, TRUE) + [("no-clearing-of-the-history", z3.Not(c.old.self.clear_history_before_execute))]
 
-    def finding_regions(self, c):
-        return {FINAL_REGION: _scn_db(c.old)._Database__data.n == 0}
-
     def ensures(self, c):
         D0, D1 = _scn_db(c.old)._Database__data, _scn_db(c.new)._Database__data
         new_points = z3.And(c.old.self._BaseScenario__history_backup_is_set, D1.n > D0.n)
         # (stated for the database as the run LEFT it; the handle clause compares with the handles open at entry)
-        return [("final-export:" + l, z3.Implies(new_points, f)) for l, f in _writer_post(_AtExit(c, keep_entry_ghosts=True), _scn_db) if l in ("exported-view:x-has-n-entries", "exported-view:every-point-lists-all-its-names", "pending-buffer-emptied", "file-handle-closed")]
+        return [("final-export:" + l, z3.Implies(new_points, f)) for l, f in _writer_post(_AtExit(c, keep_entry_ghosts=True), _scn_db) if l.startswith(("exported-view:", "records-history:", "pending-buffer-emptied", "file-handle-closed"))]
 
 
 # ---------------------------------------------------------------------------- C11: Database.from_hdf (restart side: a database rebuilt from the backup)
